@@ -74,7 +74,12 @@ def analyse_rule(ck, name, f, P, date, done, rnd):
         ck.not_encoded[pyname] = str(e)
         return
     ck.functions |= ctx.funcs
-    if v is None or not (R.is_sym(v) or R.pytype(v) is not None):
+    if v is None:
+        # every path raises with the parameters of this date (e.g. a parameter that starts later): computability is
+        # C08's subject, there is no value to compare here
+        ck.extra.setdefault("raises_on_every_path", {})[f"{pyname}@{date}"] = sorted({k for g, k, w in ctx.errors})[:3]
+        return
+    if not (R.is_sym(v) or R.pytype(v) is not None):
         ck.not_encoded[pyname] = "no scalar result"
         return
     ot = vectorize_otypes(f)
